@@ -274,7 +274,7 @@ def issuer_oracle(batch_arts):
 
 
 def subject_segment(plan, start, pool_bytes):
-  _CALL_TIMEOUT[0] = int(plan.get("call_timeout", 600))
+  _CALL_TIMEOUT[0] = int(plan.get("call_timeout", 420))
   env = Env(plan)
   kind = plan["kind"]
   pool_arts = plan["pool"]
@@ -317,7 +317,11 @@ def subject_segment(plan, start, pool_bytes):
           ev["V"] = [snap(pb.test_info) for pb in clean]
         real = [pool[j] for j in batch]
         ev["pre"] = [snap(pb.test_info) for pb in real]
-        ev["ret"] = run_call(env, kind, op, real)
+        if ev["ret_clean"] and ev["ret_clean"].get("exc") == "CallTimeout":
+          # the call already hung once on clean copies: do not hang again
+          ev["ret"] = dict(ev["ret_clean"])
+        else:
+          ev["ret"] = run_call(env, kind, op, real)
         ev["post"] = [snap(pb.test_info) for pb in real]
         if kind == "ecdsa" and op.get("issuer_oracle"):
           ev["issuer_oracle"] = issuer_oracle(arts)
@@ -442,7 +446,7 @@ def _call_list(fn, *args):
 
 def fresh_query(plan, op, arts):
   """Runs op (check / check_all) on clean copies of arts; returns V."""
-  _CALL_TIMEOUT[0] = int(plan.get("call_timeout", 600))
+  _CALL_TIMEOUT[0] = int(plan.get("call_timeout", 420))
   env = Env(plan)
   kind = plan["kind"]
   clean = [artifacts.to_pb(a) for a in arts]
